@@ -14,6 +14,16 @@ def run(tier):
         for s in range(5 if thorough else 1):
             reps = parallel(cfg, lambda o, k, n: ["aead-roundtrip", cf, o, ck.seed + s, lmax, big, k, n], nproc, os.path.join(wd, "rt_" + cfg))
             route(ck, reps, "" if cfg == "stable" else "[nightly] ", [""])
+    # operands crafted so that the Poly1305 run over the ciphertext passes through rare accumulator states
+    import polycraft, json
+    vecs = polycraft.vectors(6 if thorough else 2)
+    vf = os.path.join(wd, "polycraft.json")
+    json.dump(vecs, open(vf, "w"))
+    for cfg in ["stable", "nightly"]:
+        o = os.path.join(wd, "polycraft_%s.json" % cfg)
+        conform(cfg, ["aead-vectors", vf, o])
+        route(ck, [json.load(open(o))], "" if cfg == "stable" else "[nightly] ", [""])
+    ck.cov["crafted_poly1305_corner_boxes"] = len(vecs)
     triples = len(set((c["cons"], c["enc"], c["open"]) for c in cases if c["fault"] == "none"))
     if not ck.cov["distinct_nontrivial"]:
         ck.cov["distinct_nontrivial"] = triples * (lmax + 1 + 3)
@@ -21,8 +31,8 @@ def run(tier):
     ck.cov["rule"] = ("TLC enumerates the (construction, encrypt variant, open variant) triples of Aead.tla and proves VariantAgreement/RoundTrip on symbolic buffers; "
                       "the harness runs, for every triple and EVERY message length 0..%d plus 1024, 4096, 65537, every concrete implementation of the encrypt variant "
                       "(dryoc classic / object API with stack, array, Vec and - nightly - heap containers / libsodium) against libsodium's bytes and every implementation of the open variant; "
-                      "distinct = (triple, length)" % lmax)
-    ck.assumptions += ["keys, nonces and messages are seeded pseudo-random per (triple, length); the constructions are key-oblivious",
+                      "distinct = (triple, length); plus boxes crafted (tools/polycraft.py) so that the Poly1305 accumulator over the ciphertext reaches 0..5, p-6..p-1 and the limb boundaries of the 44/44/42 and 5x26 layouts" % lmax)
+    ck.assumptions += ["keys, nonces and messages are seeded pseudo-random per (triple, length), with the extreme values mixed in; arithmetic corners of the MAC are reached by the crafted boxes",
                        "sealed boxes: equality is through opening (libsodium's crypto_box_seal_open, and open_easy on c[32..] with nonce BLAKE2b(epk||rpk))"]
     return ck.finish()
 
